@@ -699,6 +699,69 @@ func runPut(card bool, reqpath, data string, ret *Outcome) string {
 	return hx.L("put", flSx(card), hx.S(reqpath), hx.S(data), outcomeSx(card, ret), tb.Sx(), hb.Sx()) + " " + hx.L(obs)
 }
 
+type putStep struct {
+	Data string
+	Ret  *Outcome
+}
+
+// (putseq fl reqpath pre ((data outcome)...)): a short HISTORY of PUTs at one request path
+// against a backend double with state: what a Put stored is retrievable afterwards (at the
+// request path and at the path the backend answered); pre: an object is retrievable at
+// the request path before the first PUT.  Per step: the client's result and what the
+// backend received.
+func runPutSeq(card bool, reqpath string, pre bool, steps []putStep) string {
+	tb := newTabs(card)
+	tb.path(reqpath)
+	hb := newTabs(card)
+	hb.std = true
+	var in []string
+	for _, st := range steps {
+		tb.pay(st.Data)
+		tb.outcome(st.Ret)
+		hb.outcome(st.Ret)
+		in = append(in, hx.L(hx.S(st.Data), outcomeSx(card, st.Ret)))
+	}
+	w := &world{card: card, principal: "/u/", stateful: true}
+	if pre && len(steps) > 0 {
+		w.stored = map[string]*Obj{reqpath: {Path: reqpath, ETag: "pre", Sec: 1600000000, Data: steps[0].Data}}
+	}
+	tr := &inproc{h: w.handler()}
+	cl := newClients(tr)
+	var obs []string
+	for _, st := range steps {
+		st := st
+		w.putRet, w.putCalled, w.putPath, w.putData = st.Ret, false, "", ""
+		obs = append(obs, guard(func() string {
+			var res string
+			if card {
+				o, err := cl.card.PutAddressObject(ctx, reqpath, cardFromK(st.Data))
+				if err != nil {
+					res = errSx(err)
+				} else {
+					res = hx.L("ok", viewSx(o.Path, o.ETag, o.ModTime, o.ContentLength, ""))
+				}
+			} else {
+				o, err := cl.cal.PutCalendarObject(ctx, reqpath, calFromK(st.Data))
+				if err != nil {
+					res = errSx(err)
+				} else {
+					res = hx.L("ok", viewSx(o.Path, o.ETag, o.ModTime, o.ContentLength, ""))
+				}
+			}
+			recv := "n"
+			if w.putCalled {
+				recv = hx.L(hx.S(w.putPath), hx.S(w.putData))
+			}
+			return hx.L(res, recv)
+		}))
+	}
+	preSx := "0"
+	if pre {
+		preSx = "1"
+	}
+	return hx.L("putseq", flSx(card), hx.S(reqpath), preSx, hx.L(in...), tb.Sx(), hb.Sx()) + " " + hx.L(obs...)
+}
+
 // ---------------------------------------------------------------- documents fed to the clients
 
 func seedOf(s string) uint64 {
@@ -842,6 +905,12 @@ func execInput(x hx.Sx) string {
 		return runGet(card, a[1].Str(), parseOutcome(a[2]))
 	case "put":
 		return runPut(card, a[1].Str(), a[2].Str(), parseOutcome(a[3]))
+	case "putseq":
+		var steps []putStep
+		for _, sx := range a[3].List {
+			steps = append(steps, putStep{sx.List[0].Str(), parseOutcome(sx.List[1])})
+		}
+		return runPutSeq(card, a[1].Str(), a[2].Atom == "1", steps)
 	case "vdoc":
 		return runVdoc(card, a[1].Atom, a[2].Str(), parseWDoc(a[3]), parseWDoc(a[4]))
 	case "doc":
